@@ -366,6 +366,26 @@ func (g *Gen) run() {
 		for _, k := range keys {
 			ts, i, isF := fldParts(k)
 			if !isF {
+				if strings.HasPrefix(k, "E:") {
+					// element heaps: arrays allocated at function entry keep their contents unless the contract names the heap
+					h0, had := g.entry.heap[k]
+					h1 := st.heap[k]
+					sel := selemKeyRegistry[strings.TrimPrefix(k, "E:")]
+					if !had || h0.S == h1.S || sel == "" {
+						continue
+					}
+					matched := false
+					for _, mm := range g.ctr.Modifies {
+						if heapKeyMatches(k, mm) {
+							matched = true
+						}
+					}
+					if matched {
+						continue
+					}
+					labels = append(labels, "frame/"+k)
+					terms = append(terms, fmt.Sprintf("(forall ((s Slice) (j Int)) (! (=> (select %s (sbase s)) (= (%s %s s j) (%s %s s j))) :pattern ((%s %s s j))))", alloc0.S, sel, h1.S, sel, h0.S, sel, h1.S))
+				}
 				continue
 			}
 			h0, had := g.entry.heap[k]
